@@ -254,7 +254,7 @@ func zero(t types.Type) value {
 		}
 		return s
 	case *types.Chan:
-		return chan value(nil)
+		return (*mchan)(nil)
 	case *types.Map:
 		if usesBuiltinMap(t.Key()) {
 			return map[value]value(nil)
@@ -845,7 +845,7 @@ func unop(instr *ssa.UnOp, x value) value {
 	}
 	switch instr.Op {
 	case token.ARROW: // receive
-		v, ok := <-x.(chan value)
+		v, ok := x.(*mchan).recv()
 		if !ok {
 			v = zero(instr.X.Type().Underlying().(*types.Chan).Elem())
 		}
@@ -984,7 +984,7 @@ func callBuiltin(caller *frame, callpos token.Pos, fn *ssa.Builtin, args []value
 		return copy(args[0].([]value), src.([]value))
 
 	case "close": // close(chan T)
-		close(args[0].(chan value))
+		args[0].(*mchan).close()
 		return nil
 
 	case "delete": // delete(map[K]value, K)
@@ -1027,8 +1027,11 @@ func callBuiltin(caller *frame, callpos token.Pos, fn *ssa.Builtin, args []value
 			return len(x)
 		case *hashmap:
 			return x.len()
-		case chan value:
-			return len(x)
+		case *mchan:
+			if x == nil {
+				return 0
+			}
+			return len(x.buf)
 		default:
 			panic(fmt.Sprintf("len: illegal operand: %T", x))
 		}
@@ -1041,8 +1044,11 @@ func callBuiltin(caller *frame, callpos token.Pos, fn *ssa.Builtin, args []value
 			return cap((*x).(array))
 		case []value:
 			return cap(x)
-		case chan value:
-			return cap(x)
+		case *mchan:
+			if x == nil {
+				return 0
+			}
+			return x.capacity
 		default:
 			panic(fmt.Sprintf("cap: illegal operand: %T", x))
 		}
